@@ -357,7 +357,7 @@ def format_contract(clauses, twin, indent="    "):
         kw = "ensures" if kind == "loop_ensures" else kind
         out.append(f"{indent}{kw}")
         for c in groups[kind]:
-            cid = c.ids[0] if c.ids else ""
+            cid = ",".join(c.ids) if c.ids else ""
             out.append(f"{indent}    /*@cl {cid}|{c.where}*/ {c.text},")
     return "\n".join(out)
 
